@@ -394,7 +394,8 @@ def load_known() -> dict:
 
 def known_match(prop_id: str, signature: str) -> Optional[dict]:
     for k in load_known().get("findings", []):
-        if k["property"] == prop_id and k["signature"] == signature:
+        # part checks (C15A, C15B) share the findings of their property (C15)
+        if (k["property"] == prop_id or prop_id.startswith(k["property"])) and k["signature"] == signature:
             return k
     return None
 
